@@ -56,9 +56,20 @@ def random_event(rng, keys):
 
 
 
+# hand-made histories that walk a parameter to the end of its range and then press the button that would leave it
+SCENARIOS = [
+    (('edge', 'D85_input', 'hi', -1), ('edge', 'D50_input', 'hi', -1)) + (('click', 'D50_up_button'),) * 4,
+    (('text', 'Cv_input', '0.499'),) + (('click', 'Cv_up_button'),) * 2,
+    (('text', 'Cv_input', '0.012'),) + (('click', 'Cv_down_button'),) * 2,
+    (('edge', 'D50_input', 'lo', 1),) + (('click', 'D50_down_button'),) * 2,
+    (('edge', 'D15_input', 'lo', 1),) + (('click', 'D50_down_button'),) * 3,
+    (('text', 'Dp_input', '600'), ('click', 'Dp_down_button'), ('click', 'Dp_up_button'), ('click', 'Dp_up_button')),
+]
+
+
 def sequences(rng, keys, exhaustive_pairs, n_pairs, n_random, depth=15):
     events = VALID + INVALID + OTHER + COPY + NUDGE + EDGES + [('pipeline', k) for k in keys]
-    seqs = [(e,) for e in events]
+    seqs = [(e,) for e in events] + list(SCENARIOS)
     pairs = [(a, b) for a in events for b in events]
     if exhaustive_pairs:
         seqs += pairs
